@@ -177,7 +177,8 @@ class Maximum(IMerger):
     for cur in self.input_quantizers[1:]:
       if (quantizer.name != cur.name or quantizer.bits != cur.bits or
           quantizer.int_bits != cur.int_bits or
-          quantizer.is_signed != cur.is_signed):
+          quantizer.is_signed != cur.is_signed or
+          quantizer.max_val_po2 != cur.max_val_po2):
         is_same = False
         break
 
